@@ -70,6 +70,11 @@ func genC18(seed uint64, r *rng.Rand) *Plan {
 	for i := 0; i < nc; i++ {
 		p.Faults = append(p.Faults, &Fault{On: "frames", N: g.R.Range(1, 12), Act: "cancel", Task: g.R.Intn(nt), Op: g.R.Intn(4), Slot: g.R.Intn(3)})
 	}
+	if g.R.Chance(0.3) {
+		// a server that takes its time over each request: responses arrive later
+		// than the requests that follow them were written
+		p.Faults = append(p.Faults, &Fault{On: "step", N: 1, Act: "slow", Server: 0, Dur: 1 + g.R.Intn(p.Client.ReadTimeoutMS*2/3)})
+	}
 	if g.R.Chance(0.4) {
 		p.Scenario = "silent"
 		p.Faults = append(p.Faults, &Fault{On: "exec", N: g.R.Range(0, 10), Act: "silent", Server: 0})
